@@ -190,7 +190,10 @@ def _u10_from_bulk_rate_point(
                 args,
                 (0, np.inf),
                 100,  # max_iterations (default)
-                True,  # aitken_acceleration (default)
+                # No Aitken acceleration: the extrapolation step can jump past the root
+                # into low winds for which the wind input is undefined (NaN roughness),
+                # after which every iterate is NaN and we lose a root that exists.
+                False,  # aitken_acceleration
                 atol,
                 rtol,
                 numerical_stepsize,
